@@ -151,7 +151,28 @@ func init() {
 				die("monitor: %v", err)
 			}
 			var out []byte
-			for range results {
+			// results: '0'/'1' = outcome of one check; "R<d>" / "F<d>" = the service's health check is reconfigured with
+			// another rise / fall threshold (ResetHealthCheck) before the next check
+			stream, rise0, fall0 := results, rise, fall
+			results = strings.Map(func(c rune) rune {
+				if c == '0' || c == '1' {
+					return c
+				}
+				return -1
+			}, strings.NewReplacer("R1", "", "R2", "", "R3", "", "R4", "", "R5", "", "F1", "", "F2", "", "F3", "", "F4", "", "F5", "").Replace(stream))
+			for i := 0; i < len(stream); i++ {
+				if stream[i] == 'R' || stream[i] == 'F' {
+					if stream[i] == 'R' {
+						rise = int(stream[i+1] - '0')
+					} else {
+						fall = int(stream[i+1] - '0')
+					}
+					if err := m.VerifReset(uint32(fall), uint32(rise)); err != nil {
+						die("reset: %v", err)
+					}
+					i++
+					continue
+				}
 				m.VerifCheck(h)
 				if h.IsHealthy() {
 					out = append(out, 'H')
@@ -159,6 +180,7 @@ func init() {
 					out = append(out, 'u')
 				}
 			}
+			results, rise, fall = stream, rise0, fall0
 			usable := len(set.Healthy())
 			fmt.Fprintf(cases, "%d %d %s\n", rise, fall, results)
 			fmt.Fprintf(impl, "%s usable=%d\n", out, usable)
@@ -195,6 +217,26 @@ func init() {
 				}
 			}
 			runCase(1+r.intn(5), 1+r.intn(5), string(s))
+		}
+		// thresholds reconfigured while the monitor runs
+		for i := 0; i < *fN; i++ {
+			var s []byte
+			p := []int{10, 50, 90}[r.intn(3)]
+			for j, n := 0, 2+r.intn(5); j < n; j++ {
+				for k, nk := 0, 1+r.intn(8); k < nk; k++ {
+					if r.intn(100) < p {
+						s = append(s, '1')
+					} else {
+						s = append(s, '0')
+					}
+				}
+				if r.chance(1, 4) {
+					p = 100 - p
+				}
+				s = append(s, "RF"[r.intn(2)], byte('1'+r.intn(5)))
+			}
+			runCase(1+r.intn(5), 1+r.intn(5), string(s)+"0101")
+			hist["reconfigured"]++
 		}
 		writeHist(hist)
 	})
